@@ -58,7 +58,7 @@ func (c13) Plan(tier string, seed int64) []core.Scenario {
 					if tier != "thorough" && ck == "custom" && pk%2 == 1 {
 						continue
 					}
-					out = append(out, core.Sc("panic").WithN("payload", pk).WithS("kind", ck).WithS("transport", tr).WithN("mix", (pk+rep)%4))
+					out = append(out, core.Sc("panic").WithN("payload", pk).WithS("kind", ck).WithS("transport", tr).WithN("mix", (pk+rep)%4).WithN("tracer", (pk/2+rep+len(ck))%2))
 				}
 			}
 		}
@@ -105,7 +105,11 @@ func (p c13) Run(sc core.Scenario) core.Result {
 
 func (c13) server(sc core.Scenario, r *core.R) {
 	pk, ck, tr, mix := sc.I("payload"), sc.Str("kind"), sc.Str("transport"), sc.I("mix")
-	host, err := StartHost("server")
+	var hostArgs []string
+	if sc.I("tracer") == 1 {
+		hostArgs = []string{"tracer"} // server built WithTracer: the tracer also sees calls that panicked
+	}
+	host, err := StartHost("server", hostArgs...)
 	if err != nil {
 		r.Inconclusive("host: %v", err)
 		return
@@ -306,7 +310,7 @@ func (c13) server(sc core.Scenario, r *core.R) {
 			r.Violate("host-crash:"+CrashSite(host.Stderr()), "%s: the server process did not exit cleanly: %s; stderr: %s", label, detail, core.Trunc(host.Stderr(), 1500))
 		}
 	}
-	r.Key(fmt.Sprintf("%s %s payload=%d mix=%d", tr, ck, pk, mix), len(sib)+len(streams) > 0)
+	r.Key(fmt.Sprintf("%s %s payload=%d mix=%d tracer=%d", tr, ck, pk, mix, sc.I("tracer")), len(sib)+len(streams) > 0)
 	r.Obs("panics_raised", 1)
 	r.Obs("siblings", int64(len(sib)))
 	r.Obs("streams", int64(len(streams)))
